@@ -1236,8 +1236,25 @@ func (p *Policy) validURL(rawurl string) (string, bool) {
 				return u.String(), true
 			}
 
+			// A custom check approves the URL a browser will use. For http,
+			// https, ftp, ws and wss a browser takes whatever follows the
+			// colon, less any leading slashes and backslashes, as the start of
+			// the authority: "https:internal.example/x" and
+			// "https:\\internal.example/x" name the host internal.example,
+			// where net/url sees an opaque or path-only URL without host.
+			judged := u
+			if u.Host == "" && (u.Scheme == "http" || u.Scheme == "https" ||
+				u.Scheme == "ftp" || u.Scheme == "ws" || u.Scheme == "wss") {
+				rest := strings.Replace(rawurl[len(u.Scheme)+1:], `\`, "/", -1)
+				asBrowser, err := url.Parse(u.Scheme + "://" + strings.TrimLeft(rest, "/"))
+				if err != nil {
+					return "", false
+				}
+				judged = asBrowser
+			}
+
 			for _, urlPolicy := range urlPolicies {
-				if urlPolicy(u) {
+				if urlPolicy(judged) {
 					return u.String(), true
 				}
 			}
